@@ -91,6 +91,21 @@ class Sim:
         s.rooms.auto_join = st['auto_join']
         s.rooms.private_room_invites = st['invites']
         w.peer_connect = lambda h, p: 'hang'
+        self.attempts = 0          # connect attempts to the server (counted when they start)
+        self.slow_mode = False
+        self.slow_fut = None
+        orig = w.net.connect_handler
+        srv = (s.network.server.hostname, s.network.server.port)
+
+        def handler(host, port):
+            if (host, port) == srv:
+                self.attempts += 1
+                if self.slow_mode:
+                    self.slow_mode = False
+                    self.slow_fut = w.loop.create_future()
+                    return self.slow_fut
+            return orig(host, port)
+        w.net.connect_handler = handler
         self.inits = 0
         self.dests = 0
         self.c = w.client
@@ -142,7 +157,7 @@ class Sim:
         ms = [um._session, c.shares._session, d._session, c.searches._session]
         conn = c.network.server_connection.state.name
         return {
-            'conn': {'UNINITIALIZED': 'Uninit', 'CONNECTED': 'Connected', 'CLOSED': 'Closed'}.get(conn, conn),
+            'conn': {'UNINITIALIZED': 'Uninit', 'CONNECTED': 'Connected', 'CLOSED': 'Closed', 'CONNECTING': 'Connecting'}.get(conn, conn),
             'session': c.session is not None,
             'msession': any(x is not None for x in ms),
             'derived': bool(len(um._users) or len(c.rooms.rooms) or len(um._tracking_manager._tracked_users) or len(um._privileged_users)),
@@ -154,7 +169,7 @@ class Sim:
         }
 
     def counters(self):
-        return {'inits': self.inits, 'dests': self.dests, 'connects': len(self.w.server_eps) + self.refused, 'logins': self.login_requests()}
+        return {'inits': self.inits, 'dests': self.dests, 'connects': self.attempts, 'logins': self.login_requests()}
 
     refused = 0
     auto_login_pending = False
@@ -179,8 +194,6 @@ class Sim:
             except Exception as e:
                 if type(e).__name__ != 'ConnectionFailedError':
                     raise
-            if not step[1]:
-                self.refused += len([o for o in w.net.outgoing[n_out:] if o[2] is None and o[1] == w.settings.network.server.port])
             if self.st['dirs']:
                 w.run(c.shares.scan())
             self.started = True
@@ -213,7 +226,17 @@ class Sim:
             w.loop.run_for(RECONNECT_TIMEOUT + 1.0)
             w.settle(20)
             srv = w.settings.network.server
-            self.refused += len([o for o in w.net.outgoing[n_out:] if o[2] is None and (o[0], o[1]) == (srv.hostname, srv.port)])
+            if self.login_requests() > before['logins']:
+                self.auto_login_pending = True
+        elif kind == 'tickslow':
+            # the watchdog's next attempt stays in flight (slow handshake)
+            self.slow_mode = True
+            w.loop.run_for(RECONNECT_TIMEOUT + 1.0)
+            w.settle(20)
+            self.slow_mode = False
+        elif kind == 'connect_done':
+            self._connect_done(bool(step[1]))
+            w.settle(40)
             if self.login_requests() > before['logins']:
                 self.auto_login_pending = True
         elif kind == 'command':
@@ -237,7 +260,7 @@ class Sim:
             self.pins.append(c.users.get_user_object('pinned'))
         after = self.stop_counters if kind == 'stop' else self.counters()
         outs = []
-        if kind in ('start', 'tick'):
+        if kind in ('start', 'tick', 'tickslow', 'connect_done'):
             outs += ['OConnect'] * (after['connects'] - before['connects'])
         outs += ['OLoginSent'] * (after['logins'] - before['logins'])
         outs += ['OSessionInit'] * (after['inits'] - before['inits'])
@@ -282,6 +305,20 @@ class Sim:
             self.last_burst = [m for m in self.frames()[base + 1:]]
             self.bursts.append(self.last_burst)
             self.burst_parents.append(parent_at_login)
+
+    def _connect_done(self, ok):
+        from vlib import fakes
+        w = self.w
+        fut, self.slow_fut = self.slow_fut, None
+        if fut is None or fut.done():
+            return
+        if ok:
+            srv = w.settings.network.server
+            ep = fakes.Endpoint(w.net, peername=(srv.hostname, srv.port), sockname=('10.0.0.1', 50001), label='server')
+            w.server_eps.append(ep)
+            fut.set_result(ep)
+        else:
+            fut.set_result(ConnectionRefusedError('server down'))
 
     PARENT = ('par', 3, 'rootuser')      # name, advertised branch level, advertised branch root
 
@@ -388,10 +425,17 @@ class Sim:
         open_eps = [i for i, ep in enumerate(w.server_eps) if not ep.client_closed]
         listeners = sorted(w.net.listeners)
         n_out = len(w.net.outgoing)
+        attempts0 = self.attempts
+        if self.slow_fut is not None and not self.slow_fut.done():
+            self._connect_done(True)        # the handshake of the attempt that was in flight completes only now
+            w.loop.run_ready(60)
+            open_eps = [i for i, ep in enumerate(w.server_eps) if not ep.client_closed]
         # nothing may be opened later: let 200 virtual seconds pass
         w.server_accept = True
         w.loop.run_for(200.0)
         later = [(h, p) for h, p, _ in w.net.outgoing[n_out:]]
+        if self.attempts > attempts0 and not later:
+            later = [('server', 'attempt started')] * (self.attempts - attempts0)
         self.stop_info = {'returned': returned, 'exception': exc, 'tasks': tasks, 'open': open_eps, 'listeners': listeners,
                           'opened_later': later, 'tasks_later': self.lib_tasks()}
 
@@ -748,6 +792,10 @@ def coq_event(step, sites):
         return f'LostInTracking {REASON_COQ[step[1]]}'
     if k == 'tick':
         return f'Tick {_b(step[1])}'
+    if k == 'tickslow':
+        return 'TickSlow'
+    if k == 'connect_done':
+        return f'ConnectDone {_b(step[1])}'
     if k == 'command':
         return 'Command'
     if k == 'stop':
@@ -804,7 +852,7 @@ Fixpoint remove1 (x : bmsg) (l : list bmsg) : option (list bmsg) :=
   match l with [] => None | y :: r => if beq x y then Some r else match remove1 x r with Some r' => Some (y :: r') | None => None end end.
 Fixpoint msub (a b : list bmsg) : bool := match a with [] => true | x :: r => match remove1 x b with Some b' => msub r b' | None => false end end.
 Definition mseq (a b : list bmsg) : bool := Nat.eqb (length a) (length b) && msub a b.
-Definition ceq (a b : cstate) := match a, b with Uninit, Uninit | Connected, Connected | Closed, Closed => true | _, _ => false end.
+Definition ceq (a b : cstate) := match a, b with Uninit, Uninit | Connecting, Connecting | Connected, Connected | Closed, Closed => true | _, _ => false end.
 Definition steq (a b : st) := ceq (conn a) (conn b) && Bool.eqb (session a) (session b) && Bool.eqb (msession a) (msession b)
   && Bool.eqb (derived a) (derived b) && Bool.eqb (dist a) (dist b) && Bool.eqb (watchdog a) (watchdog b) && Bool.eqb (parents a) (parents b)
   && Bool.eqb (stopped a) (stopped b) && Bool.eqb (pending a) (pending b).
@@ -955,6 +1003,14 @@ def run(run: Run):
         st = dict(base, reconnect=True)
         explore(run, {'settings': st, 'steps': [['start', True], ['login', 'ok'], ['lost', reason], ['tick', False], ['command'], ['tick', False],
                                                  ['tick', True], ['login', 'ok'], ['command'], ['stop']]}, cases, 'server-down-then-up')
+    # the watchdog's reconnect attempt is in flight (slow handshake): stop() in that window, or the attempt completes / is refused
+    for reason in (('READ_ERROR',) if run.tier == 'quick' else ('READ_ERROR', 'WRITE_ERROR', 'TIMEOUT')):
+        st = dict(base, reconnect=True)
+        pre = [['start', True], ['login', 'ok'], ['lost', reason], ['tickslow']]
+        explore(run, {'settings': st, 'steps': pre + [['command'], ['stop']]}, cases, 'attempt-in-flight')
+        explore(run, {'settings': st, 'steps': pre + [['connect_done', True], ['login', 'ok'], ['command'], ['stop']]}, cases, 'attempt-in-flight')
+        explore(run, {'settings': st, 'steps': pre + [['connect_done', False], ['tick', True], ['login', 'ok'], ['stop']]}, cases, 'attempt-in-flight')
+        explore(run, {'settings': st, 'steps': [['start', True], ['login', 'ok'], ['parents'], ['lost', reason], ['tickslow'], ['stop']]}, cases, 'attempt-in-flight')
     # a distributed parent is connected when the client logs in again (after a loss, manually or by the watchdog)
     for rec in (True, False):
         st = dict(base, reconnect=rec)
@@ -976,7 +1032,7 @@ def run(run: Run):
     st = dict(base, reconnect=False, favorites=['roomA'], auto_join=False)
     for k in sorted(cut_sites_for(st)):
         explore(run, {'settings': st, 'steps': [['start', True], ['logincut', k], ['command'], ['stop']]}, cases, 'burst-cut')
-    n = 40 if run.tier == "quick" else 1500
+    n = 25 if run.tier == "quick" else 1500
     for i in range(n):
         st = gen_settings(rng)
         sites = cut_sites_for(st) if rng.random() < 0.3 else {}
